@@ -218,3 +218,25 @@ func verifHarness_P2_ParseNumber() {
 		}
 	}
 }
+
+// P2.handoff: addNumber hands parseNumber the whole rest of the message (no truncation, no extension), whatever its
+// length, and writes exactly parseNumber's tag and value. parseNumber is the oracle here (its own lemma is P2 above); the
+// buffer is a long literal: digits, then an exponent beyond byte 64, then the terminator.
+func verifHarness_P2_Handoff() {
+	L := 66 + verifChoice("extra", 8)
+	buf := nondetBytes("lit", L)
+	for i := 0; i < L-3; i++ {
+		verifAssume(buf[i] >= '0' && buf[i] <= '9')
+	}
+	verifAssume(buf[0] != '0')
+	verifAssume(buf[L-3] == 'e' && buf[L-2] >= '1' && buf[L-2] <= '9' && buf[L-1] == ']')
+	wantTag, wantVal := parseNumber(buf)
+	pj := &ParsedJson{}
+	ok := addNumber(buf, pj)
+	verifReach("P2.handoff")
+	if wantTag == 0 {
+		verifAssert(!ok && len(pj.Tape) == 0, "addNumber rejects what parseNumber rejects")
+		return
+	}
+	verifAssert(ok && len(pj.Tape) == 2 && pj.Tape[0] == wantTag && pj.Tape[1] == wantVal, "addNumber writes parseNumber's tag and value for the whole literal")
+}
